@@ -173,11 +173,15 @@ impl World {
 pub struct ExecCfg {
     pub step_budget: usize,
     pub record_probes: bool,
+    /// a send never completes in the poll that issued it (it stays outstanding for one scheduling
+    /// step, as on a transport where a send is a request of its own): sends joined concurrently
+    /// towards one peer then overlap in time and the monitor m1 sees them
+    pub slow_sends: bool,
 }
 
 impl Default for ExecCfg {
     fn default() -> Self {
-        ExecCfg { step_budget: 5_000_000, record_probes: true }
+        ExecCfg { step_budget: 5_000_000, record_probes: true, slow_sends: false }
     }
 }
 
@@ -225,6 +229,9 @@ fn run_world_inner<T>(
             for (a, b) in net.deliverable() {
                 enabled.push(Action::Deliver(a, b));
             }
+            for (a, b) in net.acceptable() {
+                enabled.push(Action::Accept(a, b));
+            }
         }
         for p in 0..n {
             if outcomes[p].is_none() && tasks[p].is_some() && flags[p].0.load(Ordering::SeqCst) {
@@ -236,7 +243,7 @@ fn run_world_inner<T>(
             // deliver nothing more; done
             break;
         }
-        if !enabled.iter().any(|a| matches!(a, Action::Poll(_))) && !enabled.iter().any(|a| matches!(a, Action::Deliver(..))) {
+        if enabled.is_empty() {
             {
                 // rushing adversary: nothing else can happen, so the held messages go out as they are
                 let mut net = world.net.lock().unwrap();
@@ -282,6 +289,11 @@ fn run_world_inner<T>(
             Action::Deliver(a, b) => {
                 world.net.lock().unwrap().deliver(a, b);
                 trace_hash = (trace_hash ^ ((a * 31 + b) as u64 + 1)).wrapping_mul(0x100000001b3);
+                final_sweep_done = false;
+            }
+            Action::Accept(a, b) => {
+                world.net.lock().unwrap().accept(a, b);
+                trace_hash = (trace_hash ^ ((a * 37 + b) as u64 + 5000)).wrapping_mul(0x100000001b3);
                 final_sweep_done = false;
             }
             Action::Poll(p) => {
